@@ -374,6 +374,59 @@ func genC18(g *gen) {
 	}
 	g.line("Definition gen_state_writers_are_the_transition_functions : bool := %s.", coqBool(strings.Join(setters, "; ") == wantSetters))
 
+	// ---- peer.Manager.readLoop: the lane a frame goes to depends only on its TYPE
+	// (UDP_DATAGRAM / ICMP_ECHO -> fast lane, everything else -> ordered lane), and the
+	// hand-over blocks when that lane is full (no fallback to the other lane)
+	laneOK := false
+	if fd := findFunc(parseFile("internal/peer/manager.go"), "Manager", "readLoop"); fd != nil {
+		var assigns []string
+		var sendSel *ast.SelectStmt
+		ast.Inspect(fd, func(n ast.Node) bool {
+			switch x := n.(type) {
+			case *ast.AssignStmt:
+				if len(x.Lhs) == 1 && src(x.Lhs[0]) == "ch" && len(x.Rhs) == 1 {
+					assigns = append(assigns, src(x.Rhs[0]))
+				}
+			case *ast.SelectStmt:
+				for _, cl := range x.Body.List {
+					cc := cl.(*ast.CommClause)
+					if cc.Comm != nil && strings.Contains(src(cc.Comm), "ch <- frame") {
+						sendSel = x
+					}
+				}
+			}
+			return true
+		})
+		flat := strings.NewReplacer(" ", "", "\t", "", "\n", "").Replace(src(fd.Body))
+		typeSwitch := strings.Contains(flat, "switchframe.Type{caseprotocol.FrameUDPDatagram,protocol.FrameICMPEcho:ch=conn.fastLaneCh}")
+		twoArms := false
+		if sendSel != nil && len(sendSel.Body.List) == 2 {
+			hasDone, hasDefault := false, false
+			for _, cl := range sendSel.Body.List {
+				cc := cl.(*ast.CommClause)
+				if cc.Comm == nil {
+					hasDefault = true
+				} else if strings.Contains(src(cc.Comm), "conn.Done()") {
+					hasDone = true
+				}
+			}
+			twoArms = hasDone && !hasDefault
+		}
+		sends := strings.Count(flat, "<-frame")
+		laneOK = len(assigns) == 2 && assigns[0] == "conn.frameCh" && assigns[1] == "conn.fastLaneCh" && typeSwitch && twoArms && sends == 1
+	}
+	if !laneOK {
+		g.note("peer.Manager.readLoop: lane selection / blocking hand-over not recognised")
+	}
+	g.line("Definition gen_readloop_lane_by_type_and_blocking : bool := %s.", coqBool(laneOK))
+	// the ordered lane is drained by exactly one goroutine per connection
+	oneDrain := false
+	if fd := findFunc(parseFile("internal/peer/connection.go"), "", "NewConnection"); fd != nil {
+		flat := strings.NewReplacer(" ", "", "\t", "", "\n", "").Replace(src(fd.Body))
+		oneDrain = strings.Count(flat, "goc.drainFrames(c.frameCh)") == 1 && !strings.Contains(flat, "{goc.drainFrames(c.frameCh)}")
+	}
+	g.line("Definition gen_ordered_lane_has_one_drainer : bool := %s.", coqBool(oneDrain))
+
 	// meshConn.Write: first statement is `if !c.stream.CanWrite() { return 0, ... }`
 	af := parseFile("internal/agent/agent.go")
 	guard := false
